@@ -4,6 +4,8 @@ Theorems over `addIli` (`Model/Remove.lean`, mirroring `_add.py:_add_ili`) for e
 and every list of index rows (duplicates allowed: the last row for an id wins).
 -/
 import WnVerif.Model.Query
+import WnVerif.Model.Add
+import WnVerif.Lemmas.ForIn
 namespace WnVerif.Props.C19
 open WnVerif.Db
 
@@ -372,6 +374,96 @@ theorem C19_idempotent (db : Db) (rows : List IliRow) : addIli (addIli db rows) 
     obtain ⟨x, hx, hxi⟩ := C19_listed_present db rows r hr
     simp only [List.any_eq_true, beq_iff_eq]
     exact ⟨x, hx, hxi⟩
+
+/-! ### the order of loading the index and a lexicon that uses its ILIs does not matter -/
+
+/-- the first pass of `_insert_synsets` (`INSERT OR IGNORE` of presupposed ILIs), as a total function -/
+def presupAll (presup : Nat) (ss : List Doc.Synset) (db : Db) : Db :=
+  match ss.foldlM (presupStep presup) db with
+  | .ok d => d
+  | .error _ => db
+
+theorem presupStep_shape (presup : Nat) (db db1 : Db) (ss : Doc.Synset) (h : presupStep presup db ss = .ok db1) :
+    ∃ extra, db1 = { db with ilis := db.ilis ++ extra } ∧ ∀ x ∈ extra, ∀ y ∈ db.ilis, y.id ≠ x.id := by
+  unfold presupStep at h
+  split at h
+  · split at h
+    · rename_i hn
+      simp only [Except.ok.injEq] at h
+      subst h
+      refine ⟨_, rfl, ?_⟩
+      intro x hx y hy e
+      simp at hx; subst hx
+      simp only [Bool.not_eq_eq_eq_not, Bool.not_true, List.any_eq_false, beq_iff_eq] at hn
+      exact hn y hy e
+    · simp only [Except.ok.injEq] at h; subst h; exact ⟨[], by simp, by simp⟩
+  · simp only [Except.ok.injEq] at h; subst h; exact ⟨[], by simp, by simp⟩
+
+theorem presupAll_shape (presup : Nat) (ss : List Doc.Synset) (db : Db) :
+    ∃ extra, presupAll presup ss db = { db with ilis := db.ilis ++ extra } ∧ ∀ x ∈ extra, ∀ y ∈ db.ilis, y.id ≠ x.id := by
+  unfold presupAll
+  cases h : ss.foldlM (presupStep presup) db with
+  | error e => exact ⟨[], by simp, by simp⟩
+  | ok d =>
+    simp only
+    refine foldlM_ok_induct (presupStep presup)
+      (fun _ b b' => ∃ extra, b' = { b with ilis := b.ilis ++ extra } ∧ ∀ x ∈ extra, ∀ y ∈ b.ilis, y.id ≠ x.id) ?_ ?_ ss db d h
+    · intro b; exact ⟨[], by simp, by simp⟩
+    · intro a t b b1 b' hf _ ih
+      obtain ⟨e1, h1, f1⟩ := presupStep_shape presup b b1 a hf
+      obtain ⟨e2, h2, f2⟩ := ih
+      refine ⟨e1 ++ e2, by rw [h2, h1]; simp, ?_⟩
+      intro x hx y hy
+      rcases List.mem_append.mp hx with hx | hx
+      · exact f1 x hx y hy
+      · exact f2 x hx y (by rw [h1]; simp [hy])
+
+/-- **order independence** (status and definition): load the index first and then the synsets that
+name its ILIs, or the other way round — every ILI listed in the index ends with the same status and
+the same definition, namely those of its last row in the file -/
+theorem C19_order_independent (db : Db) (rows : List IliRow) (presup : Nat) (ss : List Doc.Synset)
+    (xa xb : RIli) (r : IliRow)
+    (ha : xa ∈ (presupAll presup ss (addIli db rows)).ilis) (hb : xb ∈ (addIli (presupAll presup ss db) rows).ilis)
+    (hla : lastMatch rows xa.id = some r) (hlb : lastMatch rows xb.id = some r) :
+    xa.status = xb.status ∧ xa.definition = xb.definition ∧
+    (presupAll presup ss (addIli db rows)).ilistatuses = (addIli (presupAll presup ss db) rows).ilistatuses := by
+  obtain ⟨eA, hA, fA⟩ := presupAll_shape presup ss (addIli db rows)
+  obtain ⟨eB, hB, _⟩ := presupAll_shape presup ss db
+  have hstB : (presupAll presup ss db).ilistatuses = db.ilistatuses := by rw [hB]
+  have hstat : (addIli (presupAll presup ss db) rows).ilistatuses = (addIli db rows).ilistatuses := by
+    rw [addIli_statuses, addIli_statuses]
+    unfold addIliStatuses
+    simp only [hstB]
+  have hstA : (presupAll presup ss (addIli db rows)).ilistatuses = (addIli db rows).ilistatuses := by rw [hA]
+  -- order A: the listed ILI already exists after the index, so the lexicon's first pass ignores it
+  have hxa : xa ∈ (addIli db rows).ilis := by
+    rw [hA] at ha
+    simp only [List.mem_append] at ha
+    rcases ha with ha | ha
+    · exact ha
+    · exfalso
+      -- the id is listed, hence present after the index
+      have hr : r ∈ rows ∧ r.ili = xa.id := by
+        have : ∀ (rows : List IliRow) (id : String) (r : IliRow), lastMatch rows id = some r → r ∈ rows ∧ r.ili = id := by
+          intro rows
+          induction rows using rev_ind with
+          | hnil => intro id r h; simp [lastMatch] at h
+          | snoc init a ih =>
+            intro id r h
+            rw [lastMatch_append] at h
+            split at h
+            · rename_i hm
+              simp at h; subst h
+              exact ⟨by simp, by simpa using hm⟩
+            · obtain ⟨h1, h2⟩ := ih id r h
+              exact ⟨by simp [h1], h2⟩
+        exact this rows xa.id r hla
+      obtain ⟨y, hy, hyi⟩ := C19_listed_present db rows r hr.1
+      exact fA xa ha y hy (by rw [hyi, hr.2])
+  obtain ⟨a1, a2⟩ := C19_listed_updated db rows xa hxa r hla
+  obtain ⟨b1, b2⟩ := C19_listed_updated (presupAll presup ss db) rows xb hb r hlb
+  refine ⟨?_, by rw [a2, b2], by rw [hstA, hstat]⟩
+  rw [a1, b1, hstat]
 
 /-! ### non-vacuity -/
 def demo : Db := { ilis := [⟨1, "i1", 1, none, none⟩, ⟨2, "i2", 3, some "old", none⟩], ilistatuses := [(1, "presupposed"), (2, "proposed"), (3, "active")] }
